@@ -160,6 +160,13 @@ def _from_table_path(ctx, it2, fp_, qf, ff, q, qa, pcol, socol, tag, rule="C15-c
             fb = [it2.to_nf(x) for x in a["pvt"].fallback]
             if fb != [nf.sym("reference_densities")] and not all(k in a["pvt"].items for k in ("rho_o0", "rho_g0", "rho_w0")):
                 probs.append("reference densities are not merged into pvt")
+            for k_ in ("rho_o0", "rho_g0", "rho_w0"):
+                # ... each under its own name, read by that name (a labelled container - a dict, a pandas Series - that is
+                # unpacked by position gives oil the density of whatever comes first)
+                if k_ in a["pvt"].items:
+                    got_ = it2.to_nf(a["pvt"].items[k_])
+                    if got_ != col("reference_densities", k_):
+                        probs.append(f"{k_} <- " + nf.show(got_, 80))
         ctx.check(
             not probs, rule, qf + ":" + callee.split(".")[-1] + " arguments" + tag, where,
             f"{callee.split('.')[-1]} receives the table's pressure and So columns and interpolators keyed by the column they interpolate (x = pressure / So)",
